@@ -26,7 +26,7 @@ var propSpecs = []PropSpec{
 	},
 	{
 		ID:          "C02",
-		Rules:       []string{"C02.MAP", "C02.SORT", "C02.GO", "C02.FIRST", "C02.CHAN"},
+		Rules:       []string{"C02.MAP", "C02.SORT", "C02.GO", "C02.FIRST", "C02.CHAN", "C02.SRC"},
 		Explanation: "Decides that no hash-map iteration order can reach message text, the relative order of diagnostics that tie on (file,line,col), outer state, output or returned values (C02.MAP); that each file's diagnostics are stably sorted before being returned and never unstably sorted (C02.SORT); that goroutines of a multi-file run write only their own slot, never the output, and printing happens after eg.Wait() in argument order (C02.GO).",
 		NotDecided:  "that distinct AST nodes really have distinct positions; determinism of third-party libraries",
 		Assumptions: commonAssumptions,
